@@ -55,6 +55,20 @@ Proof.
   - apply (Permutation_in _ HP). exact Hin.
   - intros q Hq. apply Hd. apply (Permutation_in _ (Permutation_sym (Permutation_map fst HP))). exact Hq.
 Qed.
+(* a group of files S (keepp) whose non-pod units convert on their own: each of them has the same result in ANY two runs that contain
+   the group in the same relative order, whatever the other files are and wherever they sit in the order of discovery *)
+Theorem group_result_any_surroundings (keepp : str -> bool) files files' p r :
+  filter (fun f => keepp (fst f)) files = filter (fun f => keepp (fst f)) files' ->
+  (forall a b, In a (map fst files) -> In b (map fst files) -> keepp a = true -> keepp b = false -> forall f, file_name a = Some f -> file_name b <> Some f) ->
+  (forall a b, In a (map fst files') -> In b (map fst files') -> keepp a = true -> keepp b = false -> forall f, file_name a = Some f -> file_name b <> Some f) ->
+  (forall q s, In (q, s) (snd (pf (filter (fun f => keepp (fst f)) files))) -> type_of_path q <> Some TPod -> exists svc sp, s = ROk svc sp) ->
+  In (p, r) (snd (pf (filter (fun f => keepp (fst f)) files))) -> type_of_path p <> Some TPod ->
+  In (p, r) (snd (pf files)) /\ In (p, r) (snd (pf files')).
+Proof.
+  intros E Hd Hd' Hs Hin Hp. split.
+  - apply (added_files_keep_results podman exists_path kill_fixed mount_nl keepp files p r); assumption.
+  - rewrite E in Hs, Hin. apply (added_files_keep_results podman exists_path kill_fixed mount_nl keepp files' p r); assumption.
+Qed.
 End Order.
 
 (* non-vacuity: a container converts alone and keeps that service amid a volume, a failing container and an unparsable file, in
